@@ -489,38 +489,15 @@ class Canon:
         if len(sites) != 1:
             return None
         kind, node, k, v = sites[0]
-        # innermost enclosing for-loop and the ifs between it and the site
+        # innermost enclosing for-loop and the conditions between it and the site
+        from .index import guard_stack
         loop = None
         conds = []
-
-        def rec(n, stack):
-            nonlocal loop, conds
-            if n is node or any(x is node for x in ast.iter_child_nodes(n) if isinstance(x, ast.expr)):
-                pass
-            for c in ast.iter_child_nodes(n):
-                if isinstance(c, (ast.FunctionDef, ast.AsyncFunctionDef, ast.ClassDef, ast.Lambda)):
-                    continue
-                ns = stack
-                if isinstance(n, (ast.For, ast.AsyncFor)) and c in n.body:
-                    ns = stack + [('for', n)]
-                elif isinstance(n, ast.If) and c in n.body:
-                    ns = stack + [('if', n.test, True)]
-                elif isinstance(n, ast.If) and c in n.orelse:
-                    ns = stack + [('if', n.test, False)]
-                elif isinstance(n, (ast.While,)) and c in n.body:
-                    ns = stack + [('while', n)]
-                if c is node or (isinstance(c, ast.Expr) and c.value is node):
-                    fors = [i for i, x in enumerate(ns) if x[0] == 'for']
-                    if fors:
-                        loop = ns[fors[-1]][1]
-                        conds = [x for x in ns[fors[-1] + 1:] if x[0] == 'if']
-                        if any(x[0] == 'while' for x in ns[fors[-1] + 1:]):
-                            loop = None
-                    return True
-                if rec(c, ns):
-                    return True
-            return False
-        rec(f.node, [])
+        ns = guard_stack(f.node, node) or []
+        fors = [i for i, x in enumerate(ns) if x[0] == 'for']
+        if fors and not any(x[0] == 'while' for x in ns[fors[-1] + 1:]):
+            loop = ns[fors[-1]][1]
+            conds = [x for x in ns[fors[-1] + 1:] if x[0] == 'if']
         if loop is None:
             return None
         cs = ''
@@ -554,29 +531,8 @@ class Canon:
             if len(sites) != 1 or sites[0].func.attr != 'append' or len(sites[0].args) != 1:
                 return None
             node = sites[0]
-            found = {}
-
-            def rec(n, stack):
-                for c in ast.iter_child_nodes(n):
-                    if isinstance(c, (ast.FunctionDef, ast.AsyncFunctionDef, ast.ClassDef, ast.Lambda)):
-                        continue
-                    ns = stack
-                    if isinstance(n, (ast.For, ast.AsyncFor)) and c in n.body:
-                        ns = stack + [('for', n)]
-                    elif isinstance(n, ast.If) and c in n.body:
-                        ns = stack + [('if', n.test, True)]
-                    elif isinstance(n, ast.If) and c in n.orelse:
-                        ns = stack + [('if', n.test, False)]
-                    elif isinstance(n, ast.While) and c in n.body:
-                        ns = stack + [('while', n)]
-                    if isinstance(c, ast.Expr) and c.value is node:
-                        found['ns'] = ns
-                        return True
-                    if rec(c, ns):
-                        return True
-                return False
-            rec(f.node, [])
-            ns = found.get('ns')
+            from .index import guard_stack
+            ns = guard_stack(f.node, node)
             if not ns:
                 return None
             fors = [i for i, x in enumerate(ns) if x[0] == 'for']
